@@ -82,6 +82,8 @@ pub struct Cfg {
     pub default_atol: bool,
     /// low-level Radau only: the classical step size controller (builder option predictive(false))
     pub radau_classical: bool,
+    /// low-level DOPRI5 / DOP853 only: builder option stiff_test (None = default, every 1000th step)
+    pub stiff_test: Option<usize>,
 }
 
 impl Cfg {
@@ -110,6 +112,7 @@ impl Cfg {
             default_rtol: false,
             default_atol: false,
             radau_classical: false,
+            stiff_test: None,
         }
     }
     pub fn tol(mut self, rtol: f64, atol: f64) -> Self {
@@ -288,7 +291,7 @@ pub fn run_lowlevel(
             s.solve(&probe, c.x0, &c.y0, c.xend, rtol, atol, Some(&mut so))
         }
         Method::DOPRI5 => {
-            let b = DOPRI5::builder().maybe_dense_output(c.low_dense).maybe_max_step(c.max_step).maybe_first_step(c.first_step);
+            let b = DOPRI5::builder().maybe_dense_output(c.low_dense).maybe_max_step(c.max_step).maybe_first_step(c.first_step).maybe_stiff_test(c.stiff_test);
             let s = match c.max_steps {
                 Some(m) => b.max_steps(m).build(),
                 None => b.build(),
@@ -296,7 +299,7 @@ pub fn run_lowlevel(
             s.solve(&probe, c.x0, &c.y0, c.xend, rtol, atol, Some(&mut so))
         }
         Method::DOP853 => {
-            let b = DOP853::builder().maybe_dense_output(c.low_dense).maybe_max_step(c.max_step).maybe_first_step(c.first_step);
+            let b = DOP853::builder().maybe_dense_output(c.low_dense).maybe_max_step(c.max_step).maybe_first_step(c.first_step).maybe_stiff_test(c.stiff_test);
             let s = match c.max_steps {
                 Some(m) => b.max_steps(m).build(),
                 None => b.build(),
